@@ -121,3 +121,34 @@ fn spec_fits_twos_complement(n: i128, size: usize) -> bool {
 	let lim: i128 = 1i128 << (bits - 1);
 	n >= -lim && n < lim
 }
+
+/// Spec: "a float is written as 4 bytes ... little-endian format" of the IEEE 754 bit pattern
+fn spec_enc_f32_bits(bits: u32) -> [u8; 4] {
+	[(bits % 256) as u8, ((bits / 256) % 256) as u8, ((bits / 65536) % 256) as u8, (bits / 16777216) as u8]
+}
+fn spec_enc_f64_bits(bits: u64) -> [u8; 8] {
+	let mut out = [0u8; 8];
+	let mut i = 0;
+	let mut b = bits;
+	while i < 8 {
+		out[i] = (b % 256) as u8;
+		b /= 256;
+		i += 1;
+	}
+	out
+}
+
+/// Expected encoding of an integer-valued datum for `int`-like nodes (int, date, time-millis)
+fn spec_enc_as_int(v: Option<i128>) -> Option<([u8; 10], usize)> {
+	match v {
+		Some(w) if w >= i32::MIN as i128 && w <= i32::MAX as i128 => Some(spec_enc_long(w as i64)),
+		_ => None,
+	}
+}
+/// ... and for `long`-like nodes (long, time-micros, timestamp-*)
+fn spec_enc_as_long(v: Option<i128>) -> Option<([u8; 10], usize)> {
+	match v {
+		Some(w) if w >= i64::MIN as i128 && w <= i64::MAX as i128 => Some(spec_enc_long(w as i64)),
+		_ => None,
+	}
+}
